@@ -167,6 +167,11 @@ fn main() {
             Some(m) => (m, true),
             None => (mode, false),
         };
+        // the grammar file's name has more than one dot; in directory mode a sibling shares its first component
+        let (mode, dots) = match mode.strip_suffix("+dots") {
+            Some(m) => (m, true),
+            None => (mode, false),
+        };
         if mode == "dir2" {
             let dir = root.join(format!("d{}", n % 64));
             writeln!(out, "{}", replay_dir2(&dir, steps)).unwrap();
@@ -175,11 +180,16 @@ fn main() {
         let dir = root.join(format!("h{}", n % 64));
         let _ = std::fs::remove_dir_all(&dir);
         std::fs::create_dir_all(dir.join("src")).unwrap();
-        let src_path = dir.join("src").join("grammar.ebnf");
+        let stem = if dots { "gram.mar.v2" } else { "grammar" };
+        let src_path = dir.join("src").join(format!("{stem}.ebnf"));
         let dest_path = match mode {
             "dest" => dir.join("out_grammar.rs"),
-            _ => dir.join("src").join("grammar.rs"),
+            _ => dir.join("src").join(format!("{stem}.rs")),
         };
+        if dots && mode == "dir" {
+            std::fs::write(dir.join("src").join("gram.ebnf"), "@export\nOther = 'o';\n").unwrap();
+            std::fs::write(dir.join("src").join("gram.mar.ebnf"), "@export\nOther2 = 'p';\n").unwrap();
+        }
         let set = if crlf { "crlf:" } else if mode == "dest" { "tail:" } else { "" };
         let mut src = format!("{set}g1");
         if steps.starts_with("i:missing") {
